@@ -1049,6 +1049,12 @@ func encodeTextSTL(i string) (o []byte) {
 		if v, ok := stlUnicodeMapping.GetInverse(string(c)); ok {
 			o = append(o, v.(byte))
 		} else if v, ok := stlUnicodeDiacritic.GetInverse(string(c)); ok {
+			// A diacritic is written before the character it applies to. When there's no such character (the text
+			// starts with a combining mark) it applies to a space
+			if len(o) == 0 {
+				o = append(o, v.(byte), ' ')
+				continue
+			}
 			o = append(o[:len(o)-1], v.(byte), o[len(o)-1])
 		} else {
 			o = append(o, byte(c))
